@@ -9,10 +9,11 @@ CONSTANTS
   Ks = {1, 2, 3}
   Fuel = 3
   Detail = TRUE
+  OldReadLimit = FALSE
   WakeAll = TRUE
   MaxSteps = 3
   Cover = FALSE
   UninitSizes = {0, 1, 2, 3}
 SPECIFICATION GSpec
-INVARIANTS ReadFifo WriteFifo WriteLimit ReadLimit LimitReported RWakeCover WWakeCover Sane Emit
+INVARIANTS ReadFifo WriteFifo WriteLimit ReadLimitStrict LimitReported RWakeCover WWakeCover Sane Emit
 
